@@ -289,21 +289,18 @@ def r2_field_sets(run, w):
   run.note("col_to_dict without include_default omits %s when empty" % dropped) if dropped else None
   # (d) every col_to_dict call feeding a ModifyColumn passes include_default=True
   c2d = w.repo.func("schema.col_to_dict")
-  n_calls = 0
   for q in ("docactions.DocActions.ModifyColumn", "useractions.UserActions.doModifyColumn"):
     fn = w.fn(q)
     calls = [c for (n, c, nm) in fn.calls() if endswith(nm, "col_to_dict")]
     if not calls:
       raise AnalysisError("%s: no col_to_dict call (the old column info moved)" % q)
     for c in calls:
-      n_calls += 1
       inc_def = _call_flag(c, c2d, "include_default")
       run.ob(R2, q, short(c), "the old column's info is taken with include_default=True (every "
              "modifiable key present, so a key that was empty can be compared and restored)",
              inc_def is True, fi=fn.fi, node=c,
              witness="without include_default the dict lacks %s when it was empty" % dropped)
-  # (e) the undo of DocActions.ModifyColumn is that dict of the *old* column, restricted to the
-  #     keys being modified
+  # (e) the undo of DocActions.ModifyColumn is built from that dict of the *old* column
   names = w.action_types()
   du = DefUse(mc)
   undo = [(n, c) for (n, c, nm) in mc.calls() if E.is_undo_record(c, nm, mc)]
